@@ -111,8 +111,6 @@ func c14Scenarios(quick bool) []c14Scenario {
 	sc = append(sc,
 		c14Scenario{Name: "navsteps-csv-record-filter", NavSteps: true, Bound: 1, Schemas: []string{navCsv}, Threads: []c14Thread{
 			{Kind: "transform", Schema: 0, Input: "1,a\n0,b\n"}, {Kind: "transform", Schema: 0, Input: "0,c\n2,z\n3,d\n"}}},
-		c14Scenario{Name: "navsteps-csv-boolean-record-filter", NavSteps: true, Bound: 1, Schemas: []string{strings.Replace(navCsv, `".[N!='0' and J!='z']"`, `"N!='0' and J!='z'"`, 1)}, Threads: []c14Thread{
-			{Kind: "transform", Schema: 0, Input: "1,a\n0,b\n"}, {Kind: "transform", Schema: 0, Input: "0,c\n2,z\n3,d\n"}}},
 		c14Scenario{Name: "navsteps-edi-record-filter", NavSteps: true, Bound: 1, Schemas: []string{navEdi}, Threads: []c14Thread{
 			{Kind: "transform", Schema: 0, Input: "A*1*a~A*0*b~"}, {Kind: "transform", Schema: 0, Input: "A*0*c~A*3*d~"}}},
 		c14Scenario{Name: "navsteps-xml-stream-filter", NavSteps: true, Bound: 1, Schemas: []string{navXML}, Threads: []c14Thread{
@@ -225,7 +223,7 @@ func init() {
 			"only interleavings at the hooked operations are explored; unsynchronised plain memory accesses are the race detector's job (free-running pass, not exhaustive over schedules)",
 			"goja VMs, encoding/* decoders and the hashicorp LRU are treated as atomic between scheduling points",
 		},
-		BudgetQuick: 100, BudgetThorough: 1600,
+		BudgetQuick: 180, BudgetThorough: 1600,
 		Run: func(c *core.Ctx) {
 			bound := 2
 			for si, sc := range c14Scenarios(c.Quick()) {
